@@ -66,9 +66,11 @@ def apply (st : St) (e : Ev) : St × String :=
 
 /-- the Go map iteration order observed on the implementation: the presentations it stored, in that order; the ones it
     skipped are no-ops wherever they come and are put first -/
+def vpKey (vp : VP) : String :=
+  (match vp.signer with | some (s, _) => s | none => "") ++ "|" ++ (match vp.id with | some i => i | none => "")
+
 def permOf (order : List String) (l : List VP) : List VP :=
-  (l.filter (fun vp => match vp.id with | some i => !(order.contains i) | none => true)) ++
-    order.filterMap (fun i => l.find? (fun vp => vp.id == some i))
+  (l.filter (fun vp => !(order.contains (vpKey vp)))) ++ order.filterMap (fun k => l.find? (fun vp => vpKey vp == k))
 
 def step' (st : St) (j : Json) : St × List String :=
   let st := if jHas j "now" then tickTo st (jNat j "now") else st
@@ -86,6 +88,21 @@ def step' (st : St) (j : Json) : St × List String :=
     let (w1, _) := step cfg st.d st.w .pollA
     let (s, l) := apply { st with w := w1 } (.pollB (permOf (jStrs j "order"))); (s, [l])
   | "validate" => let (s, l) := apply st .validate; (s, [l])
+  -- operations on ANOTHER list of the same nodes: for this list only the cross-service prune of `sqlStore.add` shows
+  | "noise" =>
+    let st := if jNat j "added" > 0 then { st with w := { st.w with S := st.w.S.prune st.w.t } } else st
+    let (s, l) := observe st "ok"; (s, [l])
+  | "cnoise" =>
+    let st := if jNat j "added" > 0 then { st with w := { st.w with C := st.w.C.prune st.w.t } } else st
+    let (s, l) := observe st "ok"; (s, [l])
+  -- `clientUpdater.update`: this list is polled as usual; the unreachable third service only shows in the joined error
+  | "pollall" =>
+    let st := if jNat j "added" > 0 then { st with w := { st.w with C := st.w.C.prune st.w.t } } else st
+    let (w1, _) := step cfg st.d st.w .pollA
+    let (w2, r) := step cfg st.d w1 (.pollB (permOf (jStrs j "order")))
+    let (s, l) := observe { st with w := w2 } (if r.isOk then "err:other-service-down" else r.cls); (s, [l])
+  -- `removeRevoked`: nothing is revoked; verification failures are not revocations
+  | "purge" => let (s, l) := observe st "ok"; (s, [l])
   | "verifier" => let (s, l) := apply st (.clientVerifier (jBool j "up")); (s, [l])
   | "observe" => let (s, l) := observe st "ok"; (s, [l])
   | "sleep" => let (s, l) := observe st "ok"; (s, [l])
